@@ -13,6 +13,11 @@ import (
 // definitely held (must analysis). entryHeld gives the state at function entry. Deferred unlocks
 // keep the lock held until return. RLock counts as held for reads (flagged separately by callers).
 func (p *Prog) lockState(fn *ssa.Function, lockPath string, entryHeld bool) map[ssa.Instruction]bool {
+	return p.lockStateX(fn, lockPath, entryHeld, false)
+}
+
+// lockStateX: with exclusive set, only Lock (not RLock) counts as acquiring.
+func (p *Prog) lockStateX(fn *ssa.Function, lockPath string, entryHeld bool, exclusive bool) map[ssa.Instruction]bool {
 	env := p.Env(fn)
 	kind := func(in ssa.Instruction) int { // 1 lock, 2 unlock, 0 other
 		c, ok := in.(*ssa.Call)
@@ -31,7 +36,12 @@ func (p *Prog) lockState(fn *ssa.Function, lockPath string, entryHeld bool) map[
 			return 0
 		}
 		switch f.Name() {
-		case "Lock", "RLock":
+		case "Lock":
+			return 1
+		case "RLock":
+			if exclusive {
+				return 0
+			}
 			return 1
 		case "Unlock", "RUnlock":
 			return 2
@@ -223,6 +233,104 @@ func (r *Run) Lockset(pkg, typ, mutex string, fieldList []string, helpers []stri
 	}
 	if total == 0 {
 		r.viol("vacuous-rule", "", "lockset "+typ, "no protected access found", why, "", 0)
+	}
+	// write mode: a store into a protected field, or an update/delete of a protected map, needs the
+	// exclusive lock — a read lock (RWMutex.RLock) admits concurrent holders
+	isWrite := func(a ssa.Instruction) bool {
+		switch x := a.(type) {
+		case *ssa.Store:
+			if _, ok := x.Addr.(*ssa.FieldAddr); ok {
+				return true
+			}
+		case *ssa.UnOp:
+			for _, ref := range *x.Referrers() {
+				switch y := ref.(type) {
+				case *ssa.MapUpdate:
+					if y.Map == ssa.Value(x) {
+						return true
+					}
+				case *ssa.Call:
+					if b, ok := y.Call.Value.(*ssa.Builtin); ok && b.Name() == "delete" && len(y.Call.Args) > 0 && y.Call.Args[0] == ssa.Value(x) {
+						return true
+					}
+				}
+			}
+		}
+		return false
+	}
+	byName := map[string]*ssa.Function{}
+	for _, m := range methods {
+		byName[m.Name()] = m
+	}
+	writes := map[string]bool{} // methods that write protected state directly or through a helper
+	for _, m := range methods {
+		for _, a := range protectedAccesses(m, nt, fields) {
+			if isWrite(a) {
+				writes[m.Name()] = true
+			}
+		}
+	}
+	for changed := true; changed; {
+		changed = false
+		for _, m := range methods {
+			if writes[m.Name()] {
+				continue
+			}
+			for _, h := range helpers {
+				if writes[h] && len(r.P.FindCalls(m, fmt.Sprintf("%s.(*%s).%s", pkg, typ, h), false)) > 0 {
+					writes[m.Name()] = true
+					changed = true
+				}
+			}
+		}
+	}
+	xstates := map[*ssa.Function]map[ssa.Instruction]bool{}
+	xstate := func(f *ssa.Function) map[ssa.Instruction]bool {
+		if s, ok := xstates[f]; ok {
+			return s
+		}
+		s := r.P.lockStateX(f, lockPath, isHelper[f.Name()], true)
+		xstates[f] = s
+		return s
+	}
+	for _, m := range methods {
+		if !writes[m.Name()] {
+			continue
+		}
+		if _, ok := exceptions[m.Name()]; ok {
+			continue
+		}
+		name := r.P.FuncName(m)
+		st := xstate(m)
+		bad := false
+		check := func(in ssa.Instruction, what string) {
+			if bad || st[in] {
+				return
+			}
+			f2, l2 := r.P.Pos(in.Pos())
+			if f2 == "" {
+				f2, l2 = r.P.FnPos(m)
+			}
+			r.viol("K6-lockset", name, "writes to "+typ+" under exclusive "+mutex, fmt.Sprintf("%s %s at %s:%d while %s.%s is not held exclusively (a read lock admits other holders): concurrent map writes / lost updates", name, what, f2, l2, typ, mutex), why, f2, l2)
+			bad = true
+		}
+		for _, a := range protectedAccesses(m, nt, fields) {
+			if isWrite(a) {
+				check(a, "writes a protected field")
+			}
+		}
+		for _, h := range helpers {
+			if !writes[h] {
+				continue
+			}
+			for _, cs := range r.P.FindCalls(m, fmt.Sprintf("%s.(*%s).%s", pkg, typ, h), false) {
+				check(cs.Instr.(ssa.Instruction), "calls "+h+" (which writes protected state)")
+			}
+		}
+		if !bad {
+			file, line := r.P.FnPos(m)
+			r.pass("K6-lockset", name, "writes to "+typ+" under exclusive "+mutex, "", why, file, line)
+		}
 	}
 }
 
